@@ -73,6 +73,7 @@ type c09res struct {
 	Leftover    int      `json:"leftover"`
 	HostBlocked int      `json:"host_blocked"`
 	LeftStacks  string   `json:"left_stacks,omitempty"`
+	Skipped     bool     `json:"skipped,omitempty"` // not run: the worker slice had already produced many run-aways
 	Runaway     bool     `json:"runaway,omitempty"` // interpreted goroutines kept running after the cancellation; the worker is replaced
 	Slow        string   `json:"slow,omitempty"`    // latency-only remarks (never an alarm below the large bound)
 	Uses        []c10use `json:"uses,omitempty"`
@@ -627,7 +628,17 @@ func c09dispatch(jobs []c09job, workers int, dir string) (map[int]c09res, error)
 		wg.Add(1)
 		go func(w int, mine []c09job) {
 			defer wg.Done()
+			runaways := 0
 			for round := 0; len(mine) > 0; round++ {
+				if runaways >= 6 {
+					// the gate is evidently broken: the cases reported so far say so; do not spin through the rest
+					mu.Lock()
+					for _, j := range mine {
+						res[j.ID] = c09res{ID: j.ID, Skipped: true}
+					}
+					mu.Unlock()
+					return
+				}
 				jf := filepath.Join(tmp, fmt.Sprintf("jobs%d_%d.jsonl", w, round))
 				rf := filepath.Join(tmp, fmt.Sprintf("res%d_%d.jsonl", w, round))
 				var b bytes.Buffer
@@ -651,6 +662,9 @@ func c09dispatch(jobs []c09job, workers int, dir string) (map[int]c09res, error)
 					for sc.Scan() {
 						var r c09res
 						if json.Unmarshal(sc.Bytes(), &r) == nil && r.ID != 0 {
+							if r.Runaway {
+								runaways++
+							}
 							mu.Lock()
 							res[r.ID] = r
 							mu.Unlock()
@@ -1158,6 +1172,10 @@ func runC09(args []string) error {
 		}
 		if t.Post != "" {
 			in["next_eval"] = t.Post
+		}
+		if res.Skipped {
+			sm.count("skipped-after-repeated-run-aways")
+			continue
 		}
 		sm.Evaluations++
 		sm.count("template:" + t.Name)
